@@ -230,6 +230,12 @@ def body_summary(b, roles, subst):
     return (tuple(conds), tuple(effs), tuple(ys))
 
 
+def empty_result(y):
+    """the 'absent' answer of a lookup: an empty optional however it is spelled ({}, std::nullopt, optional<T>{}) or false"""
+    from symex import opt_content
+    return y == ('bool', False) or opt_content(y) == (False, None) or (isinstance(y, tuple) and y[0] == 'ctor' and not y[2])
+
+
 def outcome(b, roles):
     """what the operation reports for this element: the single form's return value / the range form's delivered result or tally step"""
     seg = b.seg
@@ -618,13 +624,13 @@ def check_lookup(res, prop, cm, roles, m, b):
                     e = L.elem_entity(v[2][1])
                     ok = e.kind == 'FOUND' and e.arg == key and v[1] == 0
         else:
-            ok = (y[0] == 'ctor' and not y[2]) or y == ('bool', False)
+            ok = empty_result(y)
         res.ob('R-LOOKUP-PROV', ok=ok)
         if not ok:
             V(res, prop, 'R-LOOKUP-PROV', cm, b.where, 'hit does not return the value stored in the slot the index names for this key',
               site_of_seg(seg, m), 'path [%s] yields %s' % (val, show(y)))
     else:
-        ok = (y[0] == 'ctor' and not y[2]) or y == ('bool', False)
+        ok = empty_result(y)
         res.ob('R-LOOKUP-PROV', ok=ok)
         if not ok:
             V(res, prop, 'R-LOOKUP-PROV', cm, b.where, 'miss reports a value', site_of_seg(seg, m), 'path [%s] yields %s' % (val, show(y)))
@@ -679,7 +685,7 @@ def check_bind_update(res, prop, cm, roles, m, b):
         why = '%d index insertions' % len(binds)
     elif bd.key != key or not subject_key_ok(bd.key):
         why = 'index entry is created for %s, not for the call\'s key' % show(bd.key)
-    elif bd.via not in ('emplace', 'insert', 'try_emplace'):
+    elif bd.via not in ('emplace', 'insert', 'try_emplace', 'emplace_hint'):
         why = 'index written with %s (may overwrite silently)' % bd.via
     S = bd.ent
     if why is None and roles.value:
@@ -699,6 +705,8 @@ def check_bind_update(res, prop, cm, roles, m, b):
             good = False
             if target == 'index':
                 good = w.val == ('fld', bd.res, 'first') or (is_ld(w.val) and w.val[2] == ('fld', bd.res, 'first'))
+                if bd.via == 'emplace_hint':
+                    good = w.val == bd.res       # emplace_hint returns the iterator itself
             elif target == 'order' and roles.kind == 'slotvec':
                 # the node whose payload is the bound slot id
                 sid = bd.sid
@@ -779,6 +787,39 @@ def field_default_zero(cm, name):
     return False
 
 
+def numbering_loops(path, c):
+    """number of loops of a constructor path that visit every element of container c once, in order, storing a local counter that
+    starts at 0 and is stepped by one per element (the hand-written form of std::iota(begin, end, 0)); any other loop writing
+    elements of c counts as 2 (not a clean numbering)"""
+    from symex import root_of
+    n = 0
+    init = {}
+    over = None
+    for e in path.trace:
+        if e[0] == 'lwr':
+            init[e[1]] = e[2]
+        if e[0] == 'range':
+            over = e[1]
+        if e[0] != 'loop':
+            continue
+        lp = e[1]
+        writes = [x for it in lp.iters for x in it.trace if x[0] == 'wr' and isinstance(x[1], tuple) and x[1][0] in ('elem', 'deref', 'idx')
+                  and root_of(x[1]) == root_of(c)]
+        if not writes:
+            continue
+        its = [it for it in lp.iters if it.status != 'exit']
+        ok = lp.kind == 'range' and (lp.range or over) == c and len(its) == 1 and its[0].status == 'continue' and len(writes) == 1
+        if ok:
+            # x = i++ : the element receives the counter's value before the step
+            w = writes[0]
+            v = w[2]
+            steps = [x for x in its[0].trace if x[0] == 'lwr']
+            ok = (w[1] == ('elem', c, lp.id) and isinstance(v, tuple) and v[0] == 'lv' and len(steps) == 1
+                  and steps[0][1][1] == v[1] and steps[0][2] == ('add', v, 1) and init.get(steps[0][1]) == ('int', 0))
+        n += 1 if ok else 2
+    return n
+
+
 def check_ctor_shape(an, res, prop, cm, roles):
     """R-CTOR-SHAPE: the constructor establishes the representation invariant of the empty cache: slot storage / slot list / open
     list sized with the capacity argument, slot ids 0..capacity-1 each exactly once, partition at the head, counter 0"""
@@ -810,7 +851,8 @@ def check_ctor_shape(an, res, prop, cm, roles):
         c = THIS(ids)
         good = [e for e in iotas if isinstance(e[1], tuple) and e[1][0] == 'q' and e[1][1] in ('begin', 'cbegin') and e[1][2] == c
                 and isinstance(e[2], tuple) and e[2][0] == 'q' and e[2][1] in ('end', 'cend') and e[2][2] == c and e[3] == ('int', 0)]
-        if len(good) != 1 or len(iotas) != 1:
+        nloops = sum(numbering_loops(p, c) for p in an.paths(cm, ctor))
+        if not ((len(good) == 1 and len(iotas) == 1 and nloops == 0) or (not iotas and nloops == 1)):
             probs.append('%s is not numbered 0..capacity-1 over its whole range exactly once' % ids)
     if roles.part and roles.order:
         v = wrs.get(THIS(roles.part))
@@ -833,6 +875,9 @@ def check_no_rehash(an, res, prop, cm, roles):
     idx = THIS(roles.index)
     order = []
     site = None
+    if roles.field_tc(roles.index) in ('map', 'multimap'):
+        res.ob('R-NO-REHASH', ok=True)      # a tree index never relocates its nodes
+        return
     for p in an.paths(cm, ctor):
         for e in p.trace:
             if e[0] == 'call' and e[1] == idx:
